@@ -31,12 +31,19 @@ CloseSealed(t) == \E i \in 1..Len(t.sub) : t.sub[i].k = "S" /\ t.sub[i].t = "21"
 ITypeOf(t) == CASE t.itype = 22 -> "hs" [] t.itype = 20 -> "ccs" [] t.itype = 23 -> "app"
                 [] t.itype = 21 -> "alert" [] OTHER -> "junk"
 
+HasR(t) == \E i \in 1..Len(t.sub) : t.sub[i].k = "R"
+
+\* origin: 0 genuine, 1 body modified, 2 injected, 3 forged with keys, 4 replayed copy, 5 reflected,
+\*         6 re-framed (record boundaries only), 7 record header modified
 RecOf(t) ==
     [it     |-> ITypeOf(t),
      msg    |-> IF t.imsg \in HsMsgs THEN t.imsg ELSE "HELLO_REQUEST",
      sealed |-> t.wsec = 1,
      auth   |-> t.auth = 1,
-     gen    |-> t.origin \in {0, 6} /\ (t.wsec = 1 => t.auth = 1) /\ t.itype # -1,
+     gen    |-> IF t.wsec = 1 THEN t.auth = 1 /\ t.origin \in {0, 4}
+                ELSE t.origin \in {0, 6, 7} /\ t.itype # -1,
+     free   |-> t.wsec = 0 /\ t.origin # 0,
+     frag   |-> t.origin \in {1, 2, 7},
      alvl   |-> IF Len(t.alin) > 0 THEN t.alin[1].lvl ELSE 1,
      adesc  |-> IF Len(t.alin) > 0 THEN t.alin[1].desc ELSE 10]
 
@@ -58,16 +65,18 @@ ObsDead(t, s) == t.err = 1 \/ t.closed = 1 \/ FatalSealed(t) \/ t.rc = "Error" \
 -----------------------------------------------------------------------------
 (* Matching the outcome of a receive call *)
 
-MatchRecv(t, s, res) ==
+MatchRecv(t, s, r, res) ==
     LET n == res.next IN
-    /\ Gates(t) = res.gate
-    /\ Accs(t) = res.acc
+    /\ ~res.loose => Gates(t) = res.gate /\ Accs(t) = res.acc
+    \* still waiting for the rest of a record/message: nothing was accepted, reported or changed
+    /\ (res.loose /\ Live(n)) => Accs(t) = <<>> /\ Len(t.alin) = 0 /\ t.rc = "RequestRecv"
     /\ Len(t.dlv) = res.ndlv
-    /\ \A i \in 1..Len(t.dlv) : t.dlv[i].ok = 1         \* what is delivered is what the peer application sent
+    /\ r.gen => \A i \in 1..Len(t.dlv) : t.dlv[i].ok = 1  \* what is delivered is what the peer application sent
     /\ ObsDead(t, s) = (n.dead # "no")
     /\ (n.dead = "closed" /\ Live(s)) => t.closed = 1
     /\ (n.dead = "fatalrcvd" /\ Live(s)) => t.err = 1
     /\ Live(s) => (res.alertOut = FatalSealed(t) \/ s.cfg.dtls)
+    /\ (Live(s) /\ ~res.loose) => (HasR(t) = res.rpass)
     /\ Live(n) =>
           /\ t.hs = n.hs
           /\ (t.rs = 1) = ReadSecure(n)
@@ -76,6 +85,11 @@ MatchRecv(t, s, res) ==
     \* C15: a call on a session that was already dead reports an error or close request
     /\ ~Live(s) => /\ t.rc \in {"Error", "RequestClose"}
                    /\ Len(Sealed(t, "23")) = 0 /\ Len(Sealed(t, "22")) = 0
+
+\* The choice is resolved deterministically from the observation (first matching in a fixed order), so
+\* that every trace line has at most one successor and a rejection is a property of the trace, not of a
+\* branch of the search.
+ChoiceOrder == <<"good", "bad", "rlfail", "part">>
 
 TDeliver ==
     /\ IsEvent({"deliver"})
@@ -86,10 +100,12 @@ TDeliver ==
            s == sess[e]
            r == RecOf(t)
            c == CfgOf(t, s)
-       IN \E ok \in BOOLEAN :
-            LET res == IF Live(s) THEN Recv(s, r, c, ok) ELSE RecvDead(s) IN
-            /\ MatchRecv(t, s, res)
-            /\ sess' = [sess EXCEPT ![e] = res.next]
+           Res(ch) == IF Live(s) THEN Recv(s, r, c, ch) ELSE RecvDead(s)
+           allowed == IF Live(s) THEN AllowedChoices(s, r) ELSE {"good"}
+           matching == {i \in 1..4 : ChoiceOrder[i] \in allowed /\ MatchRecv(t, s, r, Res(ChoiceOrder[i]))}
+       IN /\ matching # {}
+          /\ LET first == CHOOSE i \in matching : \A j \in matching : i <= j
+             IN sess' = [sess EXCEPT ![e] = Res(ChoiceOrder[first]).next]
 
 TSend ==
     /\ IsEvent({"send"})
@@ -152,18 +168,35 @@ TFlush ==
     /\ UNCHANGED sess
 
 TSkip ==
-    /\ IsEvent({"keys", "clock", "mark"})
+    /\ IsEvent({"keys", "clock", "mark", "skip"})
     /\ UNCHANGED sess
 
 TraceInit == l = 1 /\ sess = [x \in {} |-> 0]
 
-TraceNext == TDeliver \/ TSend \/ TClose \/ TNew \/ TDel \/ TReset \/ TAdv \/ TFlush \/ TSkip
+TraceNormal == TDeliver \/ TSend \/ TClose \/ TNew \/ TDel \/ TReset \/ TAdv \/ TFlush \/ TSkip
+
+(* A line that no action explains is a REJECTION: it is reported (side effect on stdout, parsed by  *)
+(* tools/tlcutil.py) and validation resumes at the next episode (the line after the next "Reset"),  *)
+(* so that one rejection does not leave the rest of the trace unexamined.                           *)
+NextEpisode(i) ==
+    LET rs == {j \in i..Len(TraceLog) : TraceLog[j].ev = "Reset"} IN
+    IF rs = {} THEN Len(TraceLog) + 1
+    ELSE (CHOOSE j \in rs : \A k \in rs : j <= k) + 1
+
+TReject ==
+    /\ l <= Len(TraceLog)
+    /\ ~ENABLED TraceNormal
+    /\ PrintT(<<"TRACE_REJECT_LINE", l>>)
+    /\ l' = NextEpisode(l)
+    /\ sess' = [x \in {} |-> 0]
+
+TDone ==
+    /\ l = Len(TraceLog) + 1
+    /\ PrintT(<<"TRACE_DONE", Len(TraceLog)>>)
+    /\ l' = l + 1
+    /\ UNCHANGED sess
+
+TraceNext == TraceNormal \/ TReject \/ TDone
 
 TraceSpec == TraceInit /\ [][TraceNext]_<<sess, l>>
-
-\* accepted iff every line was consumed; otherwise report the first line that no action explains
-TraceAccepted ==
-    LET d == TLCGet("stats").diameter IN
-    IF d - 1 = Len(TraceLog) THEN TRUE
-    ELSE Print(<<"TRACE_REJECTED_AT_LINE", d, "of", Len(TraceLog)>>, FALSE)
 =============================================================================
